@@ -120,3 +120,26 @@ func verifHarness_R1f_Digits() {
 	verifReach("R1f.digits")
 	verifAssert(verifSameDigits(&a, &b), "ryuDigits / ryuDigits32 emit the same digits, count and decimal point as strconv's")
 }
+
+//go:linkname verifS_fmtF strconv.fmtF
+func verifS_fmtF(dst []byte, neg bool, d verifSDec32, prec int) []byte
+
+// the 'f' formatter itself against strconv's, on explicit digit strings: every digit count, every decimal point the
+// ECMAScript switch sends to 'f', symbolic digits and sign (inputs are the harness's own, so a difference replays natively)
+func verifHarness_R1f_FmtF() {
+	nd := verifChoice("nd", 18)
+	dp := -6 + verifChoice("dp", 29)
+	digs := nondetBytes("digits", 17)
+	for _, c := range digs {
+		verifAssume(c >= '0' && c <= '9')
+	}
+	neg := nondetBool("neg")
+	prec := max(nd-dp, 0)
+	var ba, bb [32]byte
+	copy(ba[:], digs)
+	copy(bb[:], digs)
+	a := fmtF(make([]byte, 0, 64), neg, decimalSlice{d: ba[:], nd: nd, dp: dp}, prec)
+	b := verifS_fmtF(make([]byte, 0, 64), neg, verifSDec32{d: bb[:], nd: nd, dp: dp}, prec)
+	verifReach("R1f.fmtF")
+	verifAssert(verifBytesEq(a, b), "fmtF = strconv.fmtF on every digit count 0..17 and decimal point -6..22")
+}
